@@ -6,6 +6,7 @@ VERIF = os.path.dirname(os.path.dirname(os.path.abspath(__file__)))
 REPO = os.environ.get('RSBDD_REPO', '/repo')
 DRIVER = os.path.join(VERIF, 'driver', 'target', 'release', 'rsbdd-facts')
 CACHE = os.path.join(VERIF, '.cache')
+EVID = os.environ.get('RSBDD_EVIDENCE_DIR', os.path.join(VERIF, 'evidence'))
 
 def repo_hash(repo, extra=''):
     h = hashlib.sha256()
@@ -123,7 +124,7 @@ def finish(report, level, tier, t0, explanation, trusted_base, assumptions, chec
             print('KNOWN-FINDING: property=%s %s [%s]' % (pid, known_keys[v.key].get('what', v.msg), v.key))
         else:
             new.append(v)
-    os.makedirs(os.path.join(VERIF, 'evidence', 'replay'), exist_ok=True)
+    os.makedirs(os.path.join(EVID, 'replay'), exist_ok=True)
     ev = {
         'property_id': pid,
         'tier': tier,
@@ -153,16 +154,18 @@ def finish(report, level, tier, t0, explanation, trusted_base, assumptions, chec
     if report.obligations < 1 or len(report.idents) < 2:
         # the generic keys have schema minimums; they are optional for this level, so omit rather than pad
         del ev['coverage']['evaluations']; del ev['coverage']['distinct_nontrivial']; del ev['coverage']['rule']
-    with open(os.path.join(VERIF, 'evidence', pid + '.json'), 'w') as f:
+    with open(os.path.join(EVID, pid + '.json'), 'w') as f:
         json.dump(ev, f, indent=1, default=str)
     print('%s: %d obligation(s), %d discharged; rule instances: %s; %.1fs' % (
         pid, report.obligations, report.discharged, ', '.join('%s=%d' % kv for kv in sorted(report.counts.items())), time.time() - t0))
     if new:
-        rp = os.path.join(VERIF, 'evidence', 'replay', pid + '.json')
+        rp = os.path.join(EVID, 'replay', pid + '.json')
         with open(rp, 'w') as f:
             json.dump({'property': pid, 'violations': [v.to_json() for v in new]}, f, indent=1, default=str)
         for v in new:
             print('  violation [%s] %s: %s%s' % (v.rule, v.key, v.msg, (' at ' + v.loc) if v.loc else ''))
         print('VIOLATION property=%s replay=%s' % (pid, rp))
         return 1
+    stale = os.path.join(EVID, 'replay', pid + '.json')
+    if os.path.exists(stale): os.remove(stale)
     return 0
